@@ -111,12 +111,49 @@ def fit_form(ctx, config, U):
     return outs
 
 
+def premises(ctx, config, w):
+    """C04 reasons on the generic default bodies: no impl may override them, and
+    the scale lookup used by the generated operators must return only a unit
+    with the requested scale (evaluated on every result type's table,
+    including the dimensionless amount)."""
+    from . import conc
+    U = w.U
+    for trait, allowed, label in ((model.T_UNIT, {"QuantityType", "iter", "name", "symbol", "si_prefix", "<rpitit>"}, "Unit"),
+                                  (model.T_LSU, {"REF_UNIT", "scale"}, "LinearScaledUnit"),
+                                  (model.T_QUANTITY, {"UnitType", "new", "amount", "unit"}, "Quantity"),
+                                  (model.T_HRU, {"REF_UNIT"}, "HasRefUnit")):
+        for tk, (extra, imp) in G.overrides(ctx, "override", U, trait, allowed, label).items():
+            if label == "HasRefUnit" and tk in model.AMOUNT_TYPES and extra == ["_fit"]:
+                continue
+            ctx.fail("override", "%s/%s/%s" % (config, label, tk),
+                     "impl %s for %s overrides %s: the generated operators of types using it are not covered by the generic analysis" % (label, tk, extra), imp["span"])
+    louts, lb, lev = G.summarize(U, G.HRU + "unit_from_scale", {"*"}, stop=G.STOP_LOOKUP)
+    n = 0
+    for q in w.qtypes:
+        if q.kind not in ("ref", "dimless") or "scale" not in q.tables:
+            continue
+        scales = sorted({q.tables["scale"][v][1] for v in q.variants_const})
+        probes = scales + [scales[0] / 3, scales[-1] * 7, (scales[0] + scales[-1]) / 2 + 1]
+        for sgm in probes:
+            try:
+                r = conc.Conc(U, q, lev).pick(louts, {0: sgm})
+                ok = (r is None and sgm not in scales) or (r is not None and q.tables["scale"][r[1]][1] == sgm)
+                why = "unit_from_scale(%s) on %s yields %s" % (sgm, q.path, r)
+            except (conc.CannotEvaluate, conc.ModelPanic, T.Unsupported) as x:
+                ok, why = False, "cannot evaluate the lookup model on %s: %s" % (q.path, x)
+            n += 1
+            ctx.ob("lookup-returns-matching-scale", "%s/%s/%s" % (config, q.path, sgm), ok,
+                   why + " — the natural-unit branch then stores the product of the amounts with a unit of a different scale", lb["span"], nontrivial=False)
+    return n
+
+
 def run_config(ctx, config, counts):
     w = ws.load(config)
     U = w.U
     amt = ws.amount_type(config)
     ctx.configs.append(config)
     fit_form(ctx, config, U)
+    premises(ctx, config, w)
     for crate in w.crates:
         qts = [q for q in w.qtypes if q.crate is crate and q.kind != "dimless"]
         for q in qts:
